@@ -997,6 +997,7 @@ func runStorage(c *Ctx, prop string) {
 			stConc(c, 1, r.Pick([]int{2, 4, 8, 16}), 40, 20000, i)
 		}
 		stConc(c, 1, 16, 40, 20000, 99)
+		stExtraGen(c, prop)
 	case "06":
 		if n == 0 {
 			n = 110
